@@ -24,7 +24,9 @@ def enclosing(node, kinds):
 
 
 def call_name(c):
-    """simple name of the callee of a Call node (Name id or Attribute attr)"""
+    """simple name of the callee of a Call node (Name id or Attribute attr); None for anything else"""
+    if not isinstance(c, ast.Call):
+        return None
     f = c.func
     if isinstance(f, ast.Name):
         return f.id
